@@ -16,8 +16,15 @@ behaviour x To=void x registration syntax) are picked in Init, so one TLC run co
                      full edge cover everywhere, replayer built with ASan/UBSan
   Adapters_fine.cfg  Grain = "fine": registering thread x one resolver with the atomic operation and the plain
                      code after it as separate steps (vsched yield_after); PublishedResumable
-  Adapters_pinned.cfg / _armlate.cfg / _argsbyref.cfg  property self-tests: FixVoidSrc = FALSE, ArmLate = {discard},
-                     ArgsByRef = TRUE must violate ConvertedValueOrException / PublishedResumable / ArgsAsPassed
+                     (thorough: Adapters_fine_full.cfg two resolvers, Adapters_fine_ctx.cfg one resolver x all contexts)
+  Adapters_pinned.cfg / _armlate.cfg / _argsbyref.cfg / _unwind.cfg  property self-tests: FixVoidSrc = FALSE,
+                     ArmLate = {discard}, ArgsByRef = TRUE, SkipUnwinding = {mkprom} must violate
+                     ConvertedValueOrException / PublishedResumable / ArgsAsPassed / CallbackOnce
+Execution context (s.cx; RegCtxs / ResCtxs): every registering call and every resolution is made in ordinary
+control flow, in the destructor of an RAII guard during stack unwinding, inside a catch handler (exception outcome =
+the handled exception, p(current_exception()) / p.unhandled_exception()); a broken promise additionally by the
+promise's destructor at the end of its scope and as a local destroyed by an exception leaving the scope (~promise:
+plain load of _owner, future.h:600-603, also under the controlled scheduler with one resolver).
 The sequential scenarios run from ordinary code (ctx "plain") and from inside a running coroutine (ctx "coro": the
 helper coroutine of callback_await is queued and starts at Yield); callback_await's awaitable argument is passed as
 a temporary, an lvalue and a moved named object (tracked: destruction / move poison it; ArgsAsPassed).
@@ -91,6 +98,7 @@ def header(mode, fine=False):
              "tovoid": par["tovoid"], "k": k}
         if mode == "conc":
             h["rk"] = dict(st0["s"]["rk"])
+            h["cx"] = dict(st0["s"]["cx"])
         return h
     return hdr
 
@@ -203,33 +211,54 @@ def expect_violation(ctx, cfg, invariant, what):
 
 
 def run(ctx):
+    import time
+    t0 = [time.monotonic()]
+
+    def lap(name):   # development aid only (reporting, never part of the verdict)
+        if os.environ.get("VERIF_C18_TIMES"):
+            now = time.monotonic()
+            print("C18 phase %s: %.1f s" % (name, now - t0[0]))
+            t0[0] = now
     rp = vlib.compile_harness(os.path.join(vlib.VERIF, "harness/adapters_replay.cpp"), "adapters_replay",
                               sanitize=not ctx.quick)
     kw = {"workers": 4}
+    lap("compile")
     # every (adapter x outcome x sequential timing x allocator) combination, two (thorough: three) operations per scenario
     with swapped_cover(cover_by_init(None)):
         graph_replay(ctx, "Adapters", "Adapters", "Adapters_seq.cfg" if ctx.quick else "Adapters_seq3.cfg", "seq", rp,
                      proj_seq, header_fn=header("seq"),
                      must_take=SEQ_ACTIONS, key_fn=key_fn, tlc_kw=kw)
+    lap("seq")
     # concurrent timing, one resolver: full edge cover (small)
     with swapped_cover(cover_by_init(None)):
         graph_replay(ctx, "Adapters", "Adapters", "Adapters_conc.cfg", "conc", rp, proj_conc, header_fn=header("conc"),
                      must_take=CONC_ACTIONS, key_fn=key_fn, tlc_kw=kw)
+    lap("conc")
     # concurrent timing, two competing resolvers: capped per combination in quick
     with swapped_cover(cover_by_init(6 if ctx.quick else None)):
         graph_replay(ctx, "Adapters", "Adapters", "Adapters_race.cfg" if ctx.quick else "Adapters_race_full.cfg", "race", rp,
                      proj_conc, header_fn=header("conc"),
                      must_take=CONC_ACTIONS, key_fn=key_fn, tlc_kw=kw)
+    lap("race")
     # finest grain (vsched yield_after): the atomic operation and the plain code after it are separate steps, so
     # plain code on the wrong side of an atomic operation (a node published before it is armed) is exposed
     with swapped_cover(cover_by_init(None)):
         graph_replay(ctx, "Adapters", "Adapters", "Adapters_fine.cfg" if ctx.quick else "Adapters_fine_full.cfg", "fine", rp,
                      proj_conc, header_fn=header("conc", fine=True),
                      must_take=FINE_ACTIONS, key_fn=key_fn, tlc_kw=kw, max_paths=None)
+    if not ctx.quick:
+        # finest grain x every execution context (one resolver: a promise destroyed by its scope has one user)
+        with swapped_cover(cover_by_init(None)):
+            graph_replay(ctx, "Adapters", "Adapters", "Adapters_fine_ctx.cfg", "finectx", rp,
+                         proj_conc, header_fn=header("conc", fine=True),
+                         must_take=FINE_ACTIONS, key_fn=key_fn, tlc_kw=kw, max_paths=None)
+    lap("fine")
     # property self-tests: specification variants that describe known / seeded defects must be rejected
     expect_violation(ctx, "Adapters_pinned.cfg", "ConvertedValueOrException", "FixVoidSrc=FALSE")
     expect_violation(ctx, "Adapters_armlate.cfg", "PublishedResumable", "ArmLate={discard}")
     expect_violation(ctx, "Adapters_argsbyref.cfg", "ArgsAsPassed", "ArgsByRef=TRUE")
+    expect_violation(ctx, "Adapters_unwind.cfg", "CallbackOnce", "SkipUnwinding={mkprom}")
+    lap("selftests")
     ctx.assume("compare_exchange_weak does not fail spuriously (x86-64 lock cmpxchg); weak CAS is executed as strong "
                "under the controlled scheduler")
     ctx.assume("scheduling points of the concurrent replays are the atomic operations on the awaited future's slot and "
@@ -239,4 +268,9 @@ def run(ctx):
     ctx.assume("adapters are invoked from ordinary code and (sequential timings) from inside a running coroutine whose "
                "ready queue runs at explicit Yield steps; the concurrent timings are invoked from plain threads; user "
                "callbacks and converters do not throw out of the callback except the converters' modelled exception")
+    ctx.assume("execution contexts: registration and resolution in ordinary control flow, in an RAII guard's destructor "
+               "during stack unwinding and inside a catch handler; a promise that is destroyed instead of called (end of "
+               "scope / local destroyed by unwinding; ~promise is a load, not an exchange) is used by that one thread "
+               "only.  quick tier: all contexts in the sequential scenarios and with one resolver at the atomic grain; two "
+               "competing resolvers in ordinary control flow (thorough: also guard)")
     ctx.assume("sequentially consistent interleavings; memory-order effects of the future protocol are C03's subject")
